@@ -49,6 +49,8 @@ fn params_src(k: usize, spec: &AppSpec, inputs: &[(usize, Mode)], src: Option<us
         let tn = ty_in_sig(spec, *ty);
         let lt = if src == Some(*ty) { "'a " } else { "" };
         let (sig, m) = match mode {
+            // (a reference to a value that is itself holding a reference: both lifetimes are the output's)
+            Mode::Ref if src == Some(*ty) && t.view_of.is_some() => (format!("a{n}: &'a T{ty}<'a>"), "ref"),
             Mode::Ref => (format!("a{n}: &{lt}{tn}"), "ref"),
             // (a value that is itself holding a reference, taken by value and kept: its lifetime is the output's)
             Mode::Move if src == Some(*ty) && t.view_of.is_some() => (format!("a{n}: T{ty}<'a>"), "move"),
@@ -85,7 +87,7 @@ pub fn emit_module(k: usize, spec: &AppSpec) -> String {
             if let Some(j) = t.view_of {
                 // holds a reference to the value its constructor borrowed (or the reference-holding value it took)
                 let by_value = t.inputs.iter().any(|(x, m)| *x == j && *m == Mode::Move) && spec.types[j].view_of.is_some();
-                let field = if by_value { format!("T{j}<'a>") } else { format!("&'a T{j}") };
+                let field = if by_value { format!("T{j}<'a>") } else if spec.types[j].view_of.is_some() { format!("&'a T{j}<'a>") } else { format!("&'a T{j}") };
                 let _ = writeln!(s, "#[derive(Debug)]\npub struct T{i}<'a> {{ pub tag: crate::rt::Tag, pub src: {field}{extra} }}");
                 if t.is_clone && !by_value {
                     let init = if t.send_sync { "" } else { ", _ns: std::marker::PhantomData" };
@@ -211,6 +213,14 @@ pub fn emit_module(k: usize, spec: &AppSpec) -> String {
             let _ = write!(sig, "g{n}: &G{}<{lt}{}>, ", GEN_KINDS[*kind as usize % 4].0, ty_in_sig(spec, *inner));
         }
         let asy = if c.is_async { "async " } else { "" };
+        // middlewares may ask for typed path parameters too (the carrier is `route.path_param_fields`)
+        if matches!(c.kind, CompKind::Pre | CompKind::Post | CompKind::Wrap) {
+            if let Some(fields) = c.route.as_ref().map(|r| &r.path_param_fields).filter(|f| !f.is_empty()) {
+                let fields: String = fields.iter().map(|f| format!("    pub {f}: String,\n")).collect();
+                let _ = writeln!(s, "#[pavex::request::path::PathParams]\npub struct PP{idx} {{\n{fields}}}");
+                let _ = write!(sig, "pp: &pavex::request::path::PathParams<PP{idx}>, ");
+            }
+        }
         match &c.kind {
             CompKind::Pre => {
                 let ret = match c.fallible {
